@@ -12,7 +12,6 @@ import (
 	"fmt"
 	"os"
 	"os/exec"
-	"runtime/pprof"
 	"sort"
 	"strconv"
 	"strings"
@@ -255,6 +254,9 @@ func (en *enumerator) rec(level int) int {
 				sig = r.sig
 				if b := blame(en.e, en.g.Side, en.seq, r.violStep); b != "" {
 					sig = sidePrefix(r.sig) + "/rejected-" + b + "-packet-changes-later-verdicts"
+					if b == "several" {
+						sig = sidePrefix(r.sig) + "/rejected-packets-together-change-later-verdicts"
+					}
 				}
 				en.blamed[pk] = sig
 			}
@@ -299,11 +301,6 @@ func workerMain(shard, tier string, budget time.Duration) {
 	if n <= 0 {
 		n = 1
 	}
-	if pf := os.Getenv("C04_PROF"); pf != "" {
-		f, _ := os.Create(pf)
-		pprof.StartCPUProfile(f)
-		defer pprof.StopCPUProfile()
-	}
 	gs := plan(tier)
 	res := &wres{Groups: make([]gstat, len(gs)), Viol: map[string]*pviol{}, Verdicts: map[string]int64{}}
 	st := &pstats{Verdicts: res.Verdicts}
@@ -337,7 +334,6 @@ func workerMain(shard, tier string, budget time.Duration) {
 	sort.Slice(res.States, func(a, b int) bool { return res.States[a] < res.States[b] })
 	b, _ := json.Marshal(res)
 	os.Stdout.Write(b)
-	pprof.StopCPUProfile()
 	os.Exit(0)
 }
 
